@@ -52,6 +52,18 @@ func c10eval(c c10Case) []ev.Finding {
 	if err != nil {
 		return []ev.Finding{{Sig: "error:" + ev.SigSafe(err.Error()), Witness: wit, Detail: "ConditionExpr failed on an in-scope condition: " + err.Error(), Case: c, Rank: rank}}
 	}
+	// The tree that was split is still the caller's condition: splitting it a second time must again be a correct
+	// split of the condition as written (that a split leaves its argument alone is C14's business; that its answer
+	// stays right when asked again is this property's).
+	var resid2 influxql.Expr
+	var tr2 influxql.TimeRange
+	var err2 error
+	if p, st := try(func() { resid2, tr2, err2 = influxql.ConditionExpr(expr, valuer) }); p != nil {
+		return []ev.Finding{{Sig: "panic:ConditionExpr", Witness: wit, Detail: "second call on the same tree: " + fmt.Sprint(p) + st, Case: c, Rank: rank}}
+	}
+	if err2 != nil {
+		return []ev.Finding{{Sig: "second-split:error", Witness: wit, Detail: "the first split succeeded, the second one on the same tree failed: " + err2.Error(), Case: c, Rank: rank}}
+	}
 	lo, hi := tr.MinTimeNano(), tr.MaxTimeNano()
 	// the same range through Min/Max with IsZero = open
 	lo2, hi2 := int64(influxql.MinTime), int64(influxql.MaxTime)
@@ -95,6 +107,12 @@ func c10eval(c c10Case) []ev.Finding {
 			}
 			out = append(out, ev.Finding{Sig: sig, Witness: wit,
 				Detail: fmt.Sprintf("at t=%d host=%s region=%s value=%d the condition is %v but range [%d,%d] + residual %s gives %v", p.t, p.host, p.region, p.value, want, lo, hi, rs, got), Case: c, Rank: rank})
+			break
+		}
+		lo3, hi3 := tr2.MinTimeNano(), tr2.MaxTimeNano()
+		if got2 := lo3 <= p.t && p.t <= hi3 && (resid2 == nil || influxql.EvalBool(resid2, p.env())); got2 != want {
+			out = append(out, ev.Finding{Sig: "second-split-changes-meaning", Witness: wit,
+				Detail: fmt.Sprintf("splitting the same tree a second time: at t=%d host=%s region=%s value=%d the condition is %v but range [%d,%d] + residual %v gives %v (first split: [%d,%d])", p.t, p.host, p.region, p.value, want, lo3, hi3, resid2, got2, lo, hi), Case: c, Rank: rank})
 			break
 		}
 	}
